@@ -24,9 +24,9 @@ func init() {
 			"an object allocated in the writing function is not shared before that function publishes it",
 		},
 	}
-	register(&core.Rule{Name: "C07/OWN-writes", Props: []string{"C07", "C12"}, Min: 25,
+	register(&core.Rule{Name: "C07/OWN-writes", Props: []string{"C07", "C12", "C05"}, Min: 25,
 		Doc: "inventory of request-reachable writes to shared state; each discharged by freshness, lock, constructor frame or forced lazy init", Run: c07Writes})
-	register(&core.Rule{Name: "C07/PAIR-lock", Props: []string{"C07"}, Min: 4,
+	register(&core.Rule{Name: "C07/PAIR-lock", Props: []string{"C07", "C09"}, Min: 4,
 		Doc: "Lock paired with deferred Unlock; no user callback / channel op under PlanCache.mu", Run: c07Lock})
 }
 
